@@ -297,6 +297,29 @@ def one_irregular(S, lay):
 # ------------------------------------------------------------------------------------
 # operations (the alphabet shared with the specification)
 # ------------------------------------------------------------------------------------
+FORMS = ("c", "fortran", "transposed-view", "strided-view", "readonly")
+
+
+def indicator_form(a, form):
+    """the same indicator values as another legal ndarray: memory layout, view, flags"""
+    import numpy as np
+    if form == "c":
+        return a
+    if form == "fortran":
+        return np.asfortranarray(a)
+    if form == "transposed-view":
+        return np.ascontiguousarray(a.T).T
+    if form == "strided-view":
+        big = np.zeros(tuple(2 * n for n in a.shape))
+        big[tuple(slice(None, None, 2) for _ in a.shape)] = a
+        return big[tuple(slice(None, None, 2) for _ in a.shape)]
+    if form == "readonly":
+        b = a.copy()
+        b.setflags(write=False)
+        return b
+    raise ValueError(form)
+
+
 def apply_op(mesh, lay, op):
     """op = ("bisect", leaf, ax) | ("both", leaf) | ("uniform",) | ("uspace",) | ("grade", sigma)
            | ("dorfler_iso", eta_list, theta) | ("dorfler_aniso", eta_pairs, theta)
@@ -320,9 +343,9 @@ def apply_op(mesh, lay, op):
         elif kind == "grade":
             mesh.refine_grading(sigma=op[1], K=4)
         elif kind == "dorfler_iso":
-            mesh.dorfler_refine_isotropic(np.array(op[1], dtype=float), op[2])
+            mesh.dorfler_refine_isotropic(indicator_form(np.array(op[1], dtype=float), op[3] if len(op) > 3 else "c"), op[2])
         elif kind == "dorfler_aniso":
-            mesh.dorfler_refine_anisotropic(np.array(op[1], dtype=float).reshape(-1, 2), op[2])
+            mesh.dorfler_refine_anisotropic(indicator_form(np.array(op[1], dtype=float).reshape(-1, 2), op[3] if len(op) > 3 else "c"), op[2])
         elif kind in ("mark_iso", "mark_aniso"):
             # realise given marked sets through indicators: 1 on the marked contributions,
             # 2^-40 elsewhere, theta^2 * total strictly between m - 1 and m
